@@ -22,6 +22,7 @@ import (
 	"github.com/ethereum/go-ethereum/common"
 	ethtypes "github.com/ethereum/go-ethereum/core/types"
 	"github.com/ethereum/go-ethereum/crypto"
+	"github.com/ethereum/go-ethereum/rlp"
 	tmproto "github.com/tendermint/tendermint/proto/tendermint/types"
 
 	"github.com/teleport-network/teleport/app"
@@ -101,7 +102,7 @@ type StateObs struct {
 	Recents        []KV      `json:"recents"`   // store iteration order
 	PendingPresent bool      `json:"pending_present"`
 	Pending        []string  `json:"pending"`
-	Cons           []ConsObs `json:"cons"` // store iteration order
+	Cons           []ConsObs `json:"cons"`  // store iteration order
 	Other          int       `json:"other"` // keys of the client store outside the four families
 }
 
@@ -119,6 +120,15 @@ type Oracle struct {
 	HashOK   bool   `json:"hash_ok"`
 	Sealer   string `json:"sealer"`
 	SealerOK bool   `json:"sealer_ok"`
+	// the pre-images of the two hashes as the real code builds them (Model/BscRlp.v computes the same byte strings)
+	BlockPre   string `json:"block_pre"`    // rlp.Encode(ToBscHeader()); empty when the encoder returns an error
+	BlockPreOK bool   `json:"block_pre_ok"` // false: ToBscHeader panics
+	SealPre    string `json:"seal_pre"`     // encodeSigHeader output
+	SealPreOK  bool   `json:"seal_pre_ok"`  // false: extra data shorter than the seal
+	// Go-side facts: Hash() == keccak256(BlockPre), sealHash == keccak256(SealPre), and the recovered sealer is
+	// crypto.Ecrecover(keccak256(SealPre), last 65 bytes of the extra data) turned into an address
+	HashIsKeccak bool `json:"hash_is_keccak"`
+	SealIsKeccak bool `json:"seal_is_keccak"`
 }
 
 type Result struct {
@@ -260,10 +270,44 @@ func (rn *runner) oracle(h bsctypes.Header) Oracle {
 	o.HashOK = !p
 	var addr common.Address
 	var err error
-	p, _ = hlib.Catch(func() { addr, err = bsctypes.VerifEcrecover(h, big.NewInt(int64(rn.spec.ChainID))) })
+	chain := new(big.Int).SetUint64(rn.spec.ChainID)
+	p, _ = hlib.Catch(func() { addr, err = bsctypes.VerifEcrecover(h, chain) })
 	if !p && err == nil {
 		o.SealerOK = true
 		o.Sealer = hlib.Hex(addr[:])
+	}
+	// pre-images
+	o.HashIsKeccak, o.SealIsKeccak = true, true
+	var pre []byte
+	p, _ = hlib.Catch(func() {
+		b, e := rlp.EncodeToBytes(h.ToBscHeader())
+		if e == nil {
+			pre = b
+		}
+	})
+	if !p {
+		o.BlockPreOK = true
+		o.BlockPre = hlib.Hex(pre)
+		if o.HashOK {
+			o.HashIsKeccak = hlib.Hex(crypto.Keccak256(pre)) == o.Hash
+		}
+	}
+	if len(h.Extra) >= 65 {
+		var sp []byte
+		p, _ = hlib.Catch(func() { sp = bsctypes.VerifSealPreimage(h, chain) })
+		if !p {
+			o.SealPreOK = true
+			o.SealPre = hlib.Hex(sp)
+			digest := crypto.Keccak256(sp)
+			sh := bsctypes.VerifSealHash(h, chain)
+			o.SealIsKeccak = bytes.Equal(digest, sh[:])
+			pub, e := crypto.Ecrecover(digest, h.Extra[len(h.Extra)-65:])
+			if e != nil {
+				o.SealIsKeccak = o.SealIsKeccak && !o.SealerOK
+			} else {
+				o.SealIsKeccak = o.SealIsKeccak && o.SealerOK && bytes.Equal(crypto.Keccak256(pub[1:])[12:], addr[:])
+			}
+		}
 	}
 	return o
 }
@@ -388,9 +432,8 @@ func seal(h *bsctypes.Header, key *ecdsa.PrivateKey, chainID uint64) {
 	if len(h.Extra) < 65 {
 		return
 	}
-	// sealHash panics for a chain id >= 2^63 (negative big.Int): such headers stay unsealed
 	hlib.Catch(func() {
-		sig, err := crypto.Sign(bsctypes.VerifSealHash(*h, big.NewInt(int64(chainID))).Bytes(), key)
+		sig, err := crypto.Sign(bsctypes.VerifSealHash(*h, new(big.Int).SetUint64(chainID)).Bytes(), key)
 		if err != nil {
 			panic(err)
 		}
@@ -1095,8 +1138,419 @@ func gasCorpus(a *app.Teleport, base sdk.Context, id int, mode string) Result {
 	return res
 }
 
+// ---------------------------------------------------------------------------------------------
+// directed cases: one submission per branch of the verification code, the validator-set switch with a shrinking
+// and a growing set probed at the edges of the recent-signer window, heights and chain ids from 2^63 on
+// ---------------------------------------------------------------------------------------------
+
+type director struct {
+	g      *gen
+	rn     *runner
+	sp     *Spec
+	res    Result
+	r      *hlib.Rand
+	sorted []common.Address // all keys of the case, ascending
+	bt     uint64
+}
+
+// newDirector creates a client whose validator list is sorted[:nvals]; the creation header announces
+// sorted[i] for i in announce (nil: the same list) and is sealed by sorted[0]; mod may change spec and header
+// before sealing.
+func newDirector(a *app.Teleport, base sdk.Context, id int, mode string, nvals int, epoch, gnum, trust uint64, announce []int,
+	mod func(*Spec, *bsctypes.Header)) *director {
+	r := hlib.NewRand(uint64(8800 + id))
+	g := &gen{r: r, tags: map[string]int{}}
+	g.mkKeys(30)
+	var raw [][]byte
+	for _, x := range g.addrs {
+		raw = append(raw, append([]byte{}, x[:]...))
+	}
+	d := &director{g: g, r: r, sorted: sortedAddrs(raw), bt: 1010}
+	sp := &Spec{ID: id, Mode: mode, ChainID: 56, Epoch: epoch, Interval: 3, Trust: trust, Contract: "00"}
+	for _, x := range d.sorted[:nvals] {
+		sp.Vals = append(sp.Vals, hlib.Hex(x[:]))
+	}
+	gh := bsctypes.Header{
+		ParentHash: make([]byte, 32), UncleHash: emptyUncle[:], Coinbase: d.sorted[0][:], Root: r.Bytes(32), TxHash: make([]byte, 32),
+		ReceiptHash: make([]byte, 32), Bloom: make([]byte, 256), Difficulty: diffBytes(2), Height: clienttypes.NewHeight(0, gnum),
+		GasLimit: 30000000, Time: 1000, Extra: mkExtra(r, d.pick(announce, d.sorted[:nvals])), MixDigest: make([]byte, 32), Nonce: make([]byte, 8),
+	}
+	if mod != nil {
+		mod(sp, &gh)
+	}
+	seal(&gh, g.byAddr[d.sorted[0]], sp.ChainID)
+	sp.Genesis = fromProto(gh)
+	sp.ConsTime, sp.ConsRev, sp.ConsNum, sp.ConsRoot = gh.Time, 0, gh.Height.RevisionHeight, hlib.Hex(gh.Root)
+	d.sp = sp
+	d.rn = newRunner(a, base, sp)
+	d.res = Result{Obs: []Obs{}}
+	d.res.Create = d.rn.create()
+	d.res.Oracle = append(d.res.Oracle, d.rn.oracle(d.rn.headers[0]))
+	return d
+}
+
+func (d *director) pick(idx []int, dflt []common.Address) []common.Address {
+	if idx == nil {
+		return dflt
+	}
+	out := []common.Address{}
+	for _, i := range idx {
+		out = append(out, d.sorted[i])
+	}
+	return out
+}
+
+// submit builds the child of the REAL client's head sealed by sorted[who] with the difficulty of its turn;
+// an epoch block announces sorted[announce...] (nil: the current list); pre runs before sealing, post after.
+func (d *director) submit(who int, tag string, announce []int, pre, post func(*bsctypes.Header)) Obs {
+	if d.res.Create.Class != 0 {
+		return Obs{Class: 1}
+	}
+	cs := d.rn.clientState(d.rn.ctx)
+	head := cs.Header
+	n := head.Height.RevisionHeight + 1
+	vals := sortedAddrs(cs.Validators)
+	signer := d.sorted[who]
+	df := uint64(1)
+	if len(vals) > 0 && vals[n%uint64(len(vals))] == signer {
+		df = 2
+	}
+	var ph common.Hash
+	hlib.Catch(func() { ph = head.Hash() })
+	var ann []common.Address
+	if d.sp.Epoch != 0 && n%d.sp.Epoch == 0 {
+		ann = d.pick(announce, vals)
+	}
+	h := bsctypes.Header{
+		ParentHash: ph[:], UncleHash: append([]byte{}, emptyUncle[:]...), Coinbase: signer[:], Root: d.r.Bytes(32), TxHash: make([]byte, 32),
+		ReceiptHash: make([]byte, 32), Bloom: make([]byte, 256), Difficulty: diffBytes(df), Height: clienttypes.NewHeight(head.Height.RevisionNumber, n),
+		GasLimit: head.GasLimit, GasUsed: 21000, Time: head.Time + 3, Extra: mkExtra(d.r, ann), MixDigest: make([]byte, 32), Nonce: make([]byte, 8),
+	}
+	if pre != nil {
+		pre(&h)
+	}
+	seal(&h, d.g.byAddr[signer], d.sp.ChainID)
+	if post != nil {
+		post(&h)
+	}
+	st := Step{BT: d.bt, H: fromProto(h), Tag: tag}
+	d.sp.Steps = append(d.sp.Steps, st)
+	o := d.rn.step(st)
+	d.res.Obs = append(d.res.Obs, o)
+	d.res.Oracle = append(d.res.Oracle, d.rn.oracle(d.rn.headers[len(d.rn.headers)-1]))
+	return o
+}
+
+func (d *director) result() Result {
+	d.res.Spec = *d.sp
+	if d.res.Create.Class != 0 {
+		d.res.Spec.Steps = nil
+	}
+	return d.res
+}
+
+// next free sealer: the lowest validator of the current list that the real client would accept now
+func (d *director) free() int {
+	cs := d.rn.clientState(d.rn.ctx)
+	store := d.rn.a.XIBCKeeper.ClientKeeper.ClientStore(d.rn.ctx, chainName)
+	vals := sortedAddrs(cs.Validators)
+	n := cs.Header.Height.RevisionHeight + 1
+	limit := uint64(len(vals)/2 + 1)
+	recents, _ := bsctypes.GetRecentSigners(store)
+	blocked := map[common.Address]bool{}
+	for _, s := range recents {
+		if n < limit || s.Height.RevisionHeight > n-limit {
+			blocked[common.BytesToAddress(s.Validator)] = true
+		}
+	}
+	for _, v := range vals {
+		if !blocked[v] {
+			for i, x := range d.sorted {
+				if x == v {
+					return i
+				}
+			}
+		}
+	}
+	return 0
+}
+
+// tourCase: every rejection branch of ValidateBasic / verifyHeader / verifyCascadingFields / verifySeal once, valid
+// blocks in between (7 validators, epoch 10, created at 1000)
+func tourCase(a *app.Teleport, base sdk.Context, id int, mode string) Result {
+	d := newDirector(a, base, id, mode, 7, 10, 1000, 999999999, nil, nil)
+	ok := func() { d.submit(d.free(), "tour-valid", nil, nil, nil) }
+	bad := func(tag string, pre func(*bsctypes.Header)) { d.submit(d.free(), tag, nil, pre, nil) }
+	ok()
+	bad("tour-bloom-257", func(h *bsctypes.Header) { h.Bloom = make([]byte, 257) })
+	bad("tour-nonce-9", func(h *bsctypes.Header) { h.Nonce = make([]byte, 9) })
+	bad("tour-extra-31", func(h *bsctypes.Header) { h.Extra = make([]byte, 31) })
+	bad("tour-extra-0", func(h *bsctypes.Header) { h.Extra = nil })
+	bad("tour-extra-96", func(h *bsctypes.Header) { h.Extra = make([]byte, 96) })
+	bad("tour-extra-32", func(h *bsctypes.Header) { h.Extra = make([]byte, 32) })
+	bad("tour-mix", func(h *bsctypes.Header) { h.MixDigest[31] = 1 })
+	bad("tour-mix-33", func(h *bsctypes.Header) { h.MixDigest = append([]byte{1}, h.MixDigest...) }) // cropped: valid
+	bad("tour-uncle", func(h *bsctypes.Header) { h.UncleHash[0] ^= 1 })
+	bad("tour-difficulty-0", func(h *bsctypes.Header) { h.Difficulty = nil })
+	bad("tour-difficulty-2^64", func(h *bsctypes.Header) { h.Difficulty = new(big.Int).Lsh(big.NewInt(1), 64).Bytes() })
+	bad("tour-difficulty-2^64+d", func(h *bsctypes.Header) {
+		h.Difficulty = new(big.Int).Add(new(big.Int).Lsh(big.NewInt(1), 64), new(big.Int).SetBytes(h.Difficulty)).Bytes()
+	})
+	bad("tour-extra-validators", func(h *bsctypes.Header) { h.Extra = mkExtra(d.r, d.sorted[:2]) })
+	bad("tour-number+1", func(h *bsctypes.Header) { h.Height.RevisionHeight++ })
+	bad("tour-number-1", func(h *bsctypes.Header) { h.Height.RevisionHeight-- })
+	bad("tour-number-0", func(h *bsctypes.Header) { h.Height.RevisionHeight = 0 })
+	bad("tour-parent-bit", func(h *bsctypes.Header) { h.ParentHash[7] ^= 4 })
+	bad("tour-parent-33", func(h *bsctypes.Header) { h.ParentHash = append([]byte{9}, h.ParentHash...) }) // cropped: valid
+	ok()
+	bad("tour-gas-cap", func(h *bsctypes.Header) { h.GasLimit = 1 << 63 })
+	bad("tour-gas-used", func(h *bsctypes.Header) { h.GasUsed = h.GasLimit + 1 })
+	bad("tour-gas-bound-up", func(h *bsctypes.Header) { h.GasLimit += h.GasLimit / 256 })
+	bad("tour-gas-bound-down", func(h *bsctypes.Header) { h.GasLimit -= h.GasLimit / 256 })
+	bad("tour-gas-inside-up", func(h *bsctypes.Header) { h.GasLimit += h.GasLimit/256 - 1 })   // valid
+	bad("tour-gas-inside-down", func(h *bsctypes.Header) { h.GasLimit -= h.GasLimit/256 - 1 }) // valid
+	bad("tour-gas-min", func(h *bsctypes.Header) { h.GasLimit, h.GasUsed = 4999, 0 })
+	d.submit(d.free(), "tour-seal-zero", nil, nil, func(h *bsctypes.Header) { copy(h.Extra[len(h.Extra)-65:], make([]byte, 65)) })
+	d.submit(d.free(), "tour-seal-recid", nil, nil, func(h *bsctypes.Header) { h.Extra[len(h.Extra)-1] = 7 })
+	d.submit(d.free(), "tour-seal-bitflip", nil, nil, func(h *bsctypes.Header) { h.Extra[len(h.Extra)-30] ^= 1 })
+	bad("tour-coinbase", func(h *bsctypes.Header) { h.Coinbase = d.sorted[20][:] })
+	d.submit(20, "tour-non-member", nil, nil, nil)
+	// the recent-signer window (limit 4): whoever sealed one of the last three blocks is refused, the sealer of the
+	// fourth-last is admitted
+	cs := d.rn.clientState(d.rn.ctx)
+	store := d.rn.a.XIBCKeeper.ClientKeeper.ClientStore(d.rn.ctx, chainName)
+	recents, _ := bsctypes.GetRecentSigners(store)
+	n := cs.Header.Height.RevisionHeight + 1
+	for back := uint64(1); back <= 4; back++ {
+		for _, s := range recents {
+			if s.Height.RevisionHeight == n-back {
+				for i, x := range d.sorted {
+					if x == common.BytesToAddress(s.Validator) {
+						d.submit(i, fmt.Sprintf("tour-sealer-of-n-%d", back), nil, nil, nil)
+					}
+				}
+			}
+		}
+	}
+	bad("tour-difficulty-swapped", func(h *bsctypes.Header) { h.Difficulty = diffBytes(3 - new(big.Int).SetBytes(h.Difficulty).Uint64()) })
+	bad("tour-difficulty-3", func(h *bsctypes.Header) { h.Difficulty = diffBytes(3) })
+	bad("tour-difficulty-leading-zero", func(h *bsctypes.Header) { h.Difficulty = append([]byte{0}, h.Difficulty...) }) // valid
+	bad("tour-revision-5", func(h *bsctypes.Header) { h.Height.RevisionNumber = 5 })                                    // valid: not covered by the hashes
+	// up to the epoch block 1010 and its faults
+	for k := 0; k < 12 && d.rn.clientState(d.rn.ctx).Header.Height.RevisionHeight < 1009; k++ {
+		ok()
+	}
+	bad("tour-epoch-not-x20", func(h *bsctypes.Header) { h.Extra = append(h.Extra[:40], h.Extra[41:]...) })
+	bad("tour-epoch-97", func(h *bsctypes.Header) { h.Extra = mkExtra(d.r, nil) }) // valid: announces the empty set
+	return d.result()
+}
+
+// switchCase: 7 validators, epoch 10, created at 1000.  1010 announces three of them: they come into force at 1013
+// (shrink, limit 4 -> 2); 1020 announces nine: in force at 1021 (3/2 = 1; grow, limit 2 -> 5).  Around both switches
+// the sealers at the edges of the window, members of the old / new list only, and the blocks next to the offset.
+func switchCase(a *app.Teleport, base sdk.Context, id int, mode string) Result {
+	d := newDirector(a, base, id, mode, 7, 10, 1000, 999999999, nil, nil)
+	small := []int{1, 3, 5}
+	big9 := []int{0, 1, 2, 3, 4, 5, 6, 7, 8}
+	seq := []int{1, 2, 3, 4, 5, 6, 0, 1, 2} // 1001..1009
+	for _, w := range seq {
+		d.submit(w, "switch-valid", nil, nil, nil)
+	}
+	d.submit(3, "switch-epoch-announces-3", small, nil, nil)  // 1010
+	d.submit(7, "switch-new-member-too-early", nil, nil, nil) // 1011 by a validator of neither list
+	d.submit(4, "switch-valid", nil, nil, nil)                // 1011
+	d.submit(5, "switch-valid", nil, nil, nil)                // 1012
+	d.submit(6, "switch-old-member-at-offset", nil, nil, nil) // 1013: still verified against the old list; the three come into force
+	d.submit(6, "switch-old-member-after", nil, nil, nil)     // 1014: 6 is no longer a validator
+	d.submit(5, "switch-shrunk-window-n-2", nil, nil, nil)    // 1014: 5 sealed 1012, which left the window of the limit 2
+	d.submit(5, "switch-shrunk-window-n-1", nil, nil, nil)    // 1015: 5 sealed 1014
+	d.submit(3, "switch-shrunk-window-old-entry", nil, nil, nil)
+	d.submit(1, "switch-valid", nil, nil, nil)
+	for k := 0; k < 12 && d.rn.clientState(d.rn.ctx).Header.Height.RevisionHeight < 1019; k++ {
+		d.submit(d.free(), "switch-valid", nil, nil, nil)
+	}
+	d.submit(d.free(), "switch-epoch-announces-9", big9, nil, nil) // 1020
+	d.submit(8, "switch-new-member-at-offset", nil, nil, nil)      // 1021: still the three
+	d.submit(d.free(), "switch-valid", nil, nil, nil)              // 1021: the nine come into force
+	d.submit(8, "switch-new-member-after", nil, nil, nil)          // 1022
+	// the window after the growth: the sealers of the last blocks are refused as far as their entries were kept
+	cs := d.rn.clientState(d.rn.ctx)
+	store := d.rn.a.XIBCKeeper.ClientKeeper.ClientStore(d.rn.ctx, chainName)
+	recents, _ := bsctypes.GetRecentSigners(store)
+	n := cs.Header.Height.RevisionHeight + 1
+	for back := uint64(1); back <= 5; back++ {
+		for _, s := range recents {
+			if s.Height.RevisionHeight == n-back {
+				for i, x := range d.sorted {
+					if x == common.BytesToAddress(s.Validator) {
+						d.submit(i, fmt.Sprintf("switch-grown-window-n-%d", back), nil, nil, nil)
+					}
+				}
+			}
+		}
+	}
+	for k := 0; k < 8; k++ {
+		d.submit(d.free(), "switch-valid", nil, nil, nil)
+	}
+	return d.result()
+}
+
+// edgeCases: a head whose Hash() panics (created with a 257-byte bloom), heights from 2^63 on (the block hash is
+// keccak256("") there), a chain id above 2^63, creation at height 0 with epoch 1 (every block is an epoch block)
+func edgeCases(a *app.Teleport, base sdk.Context, id int, emit func(Result)) {
+	d := newDirector(a, base, id, "raw", 5, 200, 1000, 999999999, nil, func(sp *Spec, h *bsctypes.Header) { h.Bloom = make([]byte, 257) })
+	d.submit(1, "edge-bloom-head-valid-number", nil, nil, nil)
+	d.submit(1, "edge-bloom-head-bad-number", nil, func(h *bsctypes.Header) { h.Height.RevisionHeight += 5 }, nil)
+	d.submit(1, "edge-bloom-head-number-max", nil, func(h *bsctypes.Header) { h.Height.RevisionHeight = ^uint64(0) }, nil)
+	emit(d.result())
+	for i, mode := range []string{"raw", "keeper"} {
+		d = newDirector(a, base, id+1+i, mode, 5, 4, 1<<63-4, 999999999, nil, nil)
+		for k := 0; k < 8; k++ {
+			d.submit(d.free(), "edge-height-2^63", nil, nil, nil)
+		}
+		d.submit(d.free(), "edge-height-2^63-parent-random", nil, func(h *bsctypes.Header) { h.ParentHash = d.r.Bytes(32) }, nil)
+		emit(d.result())
+	}
+	d = newDirector(a, base, id+3, "keeper", 4, 3, 999, 999999999, nil, func(sp *Spec, h *bsctypes.Header) { sp.ChainID = 1<<63 + 5 })
+	for k := 0; k < 6; k++ {
+		d.submit(d.free(), "edge-chain-id-2^63", nil, nil, nil)
+	}
+	emit(d.result())
+	d = newDirector(a, base, id+4, "raw", 3, 1, 0, 999999999, []int{0, 1, 2, 3}, nil)
+	for k := 0; k < 6; k++ {
+		d.submit(d.free(), "edge-epoch-1", []int{k % 4, (k + 1) % 4, 4}, nil, nil)
+	}
+	emit(d.result())
+}
+
+// sweepCase (thorough tier): a validators, the first epoch header announces b (sorted[2..2+b)), the second c
+// (sorted[0..c)); epoch 16, created at 1600.  From each epoch block until three blocks after the switch every
+// sealer of the last blocks (as far back as the larger of the two limits + 1) is tried before a valid block is added:
+// the edges of the window across a shrinking / growing set for every pair of sizes.
+func sweepCase(a *app.Teleport, base sdk.Context, id int, mode string, na, nb, nc int) Result {
+	d := newDirector(a, base, id, mode, na, 16, 1600, 999999999, nil, nil)
+	type acc struct {
+		num uint64
+		who int
+	}
+	chain := []acc{{1600, 0}}
+	head := func() uint64 { return d.rn.clientState(d.rn.ctx).Header.Height.RevisionHeight }
+	rng := func(lo, n int) []int {
+		out := []int{}
+		for i := 0; i < n; i++ {
+			out = append(out, lo+i)
+		}
+		return out
+	}
+	valid := func(tag string, announce []int) {
+		w := d.free()
+		if o := d.submit(w, tag, announce, nil, nil); o.Class == 0 {
+			chain = append(chain, acc{head(), w})
+		}
+	}
+	probe := func(depth int) {
+		n := head() + 1
+		for back := 1; back <= depth; back++ {
+			for _, c := range chain {
+				if c.num+uint64(back) == n {
+					if o := d.submit(c.who, fmt.Sprintf("sweep-sealer-of-n-%d", back), nil, nil, nil); o.Class == 0 {
+						chain = append(chain, acc{head(), c.who})
+						return
+					}
+				}
+			}
+		}
+	}
+	limit := func(n int) int { return n/2 + 1 }
+	phase := func(from, to int, announce []int, tag string) {
+		for k := 0; k < 20 && head()%16 != 15; k++ {
+			valid("sweep-valid", nil)
+		}
+		valid(tag, announce) // the epoch block
+		depth := limit(from)
+		if limit(to) > depth {
+			depth = limit(to)
+		}
+		for k := 0; k < from/2+4; k++ {
+			probe(depth + 1)
+			valid("sweep-valid", nil)
+		}
+	}
+	phase(na, nb, rng(2, nb), "sweep-epoch-1")
+	phase(nb, nc, rng(0, nc), "sweep-epoch-2")
+	return d.result()
+}
+
+// churnCase: the smallest epochs (2 and 3), a new list of another size announced by EVERY epoch header, so that
+// switches follow each other directly (with epoch 2 a shrink at an odd block can be followed by a growth at the next,
+// itself an epoch block); before every valid block the sealers of the last five blocks are tried.
+func churnCase(a *app.Teleport, base sdk.Context, id int, mode string, epoch uint64, sizes []int) Result {
+	d := newDirector(a, base, id, mode, sizes[0], epoch, 1200, 999999999, nil, nil)
+	type acc struct {
+		num uint64
+		who int
+	}
+	chain := []acc{{1200, 0}}
+	head := func() uint64 { return d.rn.clientState(d.rn.ctx).Header.Height.RevisionHeight }
+	k := 0
+	for step := 0; step < 26; step++ {
+		n := head() + 1
+		var announce []int
+		if n%epoch == 0 { // whoever seals the epoch block announces the next list
+			k++
+			sz := sizes[k%len(sizes)]
+			for i := 0; i < sz; i++ { // nested lists: earlier sealers stay members when the list grows again
+				announce = append(announce, i)
+			}
+		}
+		tried := map[int]bool{}
+		for back := 1; back <= 5; back++ {
+			for _, c := range chain {
+				if c.num+uint64(back) == n && !tried[c.who] && head()+1 == n {
+					tried[c.who] = true
+					if o := d.submit(c.who, fmt.Sprintf("churn-sealer-of-n-%d", back), announce, nil, nil); o.Class == 0 {
+						chain = append(chain, acc{head(), c.who})
+					}
+				}
+			}
+		}
+		if head()+1 != n {
+			continue
+		}
+		w := d.free()
+		if o := d.submit(w, "churn-valid", announce, nil, nil); o.Class == 0 {
+			chain = append(chain, acc{head(), w})
+		}
+	}
+	return d.result()
+}
+
+func sweep(a *app.Teleport, base sdk.Context, emit func(Result)) {
+	sizes := []int{1, 2, 3, 4, 5, 7, 9}
+	id := 910000
+	for _, na := range sizes {
+		for _, nb := range sizes {
+			mode := "raw"
+			if (na+nb)%3 == 0 {
+				mode = "keeper"
+			}
+			emit(sweepCase(a, base, id, mode, na, nb, na))
+			id++
+		}
+	}
+}
+
 func corpus(a *app.Teleport, base sdk.Context, emit func(Result)) {
 	emit(gasCorpus(a, base, 900100, "raw"))
+	emit(tourCase(a, base, 900200, "raw"))
+	emit(tourCase(a, base, 900201, "keeper"))
+	emit(switchCase(a, base, 900210, "raw"))
+	emit(switchCase(a, base, 900211, "keeper"))
+	edgeCases(a, base, 900220, emit)
+	// (a list with len/2 >= epoch can never be replaced: the switch offset is never reached — sizes stay below)
+	emit(churnCase(a, base, 900230, "raw", 2, []int{3, 1, 2, 3, 1, 3, 2}))
+	emit(churnCase(a, base, 900231, "keeper", 3, []int{5, 1, 4, 2, 5, 1, 5}))
+	emit(churnCase(a, base, 900232, "raw", 4, []int{7, 1, 5, 2, 6, 1, 7}))
 	id := 900000
 	for _, mode := range []string{"raw", "keeper"} {
 		// number < limit: validator 1 seals block 1 and tries block 2 (and 3); 12 validators: blocks 1, 4, 5
@@ -1155,6 +1609,7 @@ func main() {
 	steps := flag.Int("steps", 60, "maximal number of submissions per chain")
 	in := flag.String("in", "", "replay: file of specs (JSON lines) instead of generating")
 	fixture := flag.String("fixture", "", "replay the recorded main-net fixture of <repo>/x/xibc/clients/light-clients/bsc/types/testdata")
+	doSweep := flag.Bool("sweep", false, "emit the set-size sweep (thorough tier) instead of generating")
 	out := flag.String("out", "/dev/stdout", "output file (JSON lines)")
 	flag.Parse()
 
@@ -1163,6 +1618,8 @@ func main() {
 	o := hlib.NewOut(*out)
 	defer o.Close()
 	switch {
+	case *doSweep:
+		sweep(a, base, func(r Result) { o.Emit(r) })
 	case *fixture != "":
 		o.Emit(runSpec(a, base, fixtureSpec(*fixture)))
 	case *in != "":
